@@ -382,28 +382,17 @@ Proof.
   destruct (std_roman colon z) as [t|]; unfold pick; cbn [opt_text_eqb]; rewrite ?text_eqb_refl; reflexivity.
 Qed.
 
-(* ---- dirR's English loop against the definition: a bounded sweep (labelled as such) ------------------------------- *)
-(* where the loop of dirR, with the tables as they stand, writes the defined text: no group of three digits has a
-   tens digit 2..9 with a units digit 0, the group of 10^18 is zero (quantillion), the number is below 10^66; and for
-   ordinals the last two digits are 01..19 or the last digit is not 0 *)
-Fixpoint groups_ok (fuel : nat) (n : N) (k : nat) : bool :=
-  match fuel with
-  | O => true
-  | S f => if (n =? 0)%N then true
-           else let t := (n mod 1000)%N in
-                ((t mod 100 <? 20)%N || negb (t mod 10 =? 0)%N) && (negb (Nat.eqb k 6) || (t =? 0)%N) &&
-                groups_ok f (n / 1000)%N (S k)
-  end.
-Definition english_ok (ordinal : bool) (n : N) : bool :=
-  (n <? ten66)%N && groups_ok 30 n 0 &&
-  (negb ordinal || (n =? 0)%N || ((1 <=? n mod 100)%N && (n mod 100 <? 20)%N) || negb (n mod 10 =? 0)%N).
+(* ---- dirR's English loop against the definition: proved for all integers in EnglishProofs.v (english_loop,
+   english_loop_converse, english_loop_exact; english_ok is defined there). The bounded sweeps below are kept as
+   examples only: they were the evidence before the theorem existed and exercise the predicate on concrete numbers. ---- *)
+From C15 Require Import EnglishProofs.
 Definition english_agrees (ordinal : bool) (n : N) : bool :=
   Bool.eqb (opt_text_eqb (go_english src_tables ordinal (dec_text (Z.of_N n))) (std_english ordinal (Z.of_N n)))
            (english_ok ordinal n).
 Definition sweep (ordinal : bool) (hi lo : nat) : bool :=
   forallb (fun i => forallb (fun j => english_agrees ordinal (N.of_nat i * 1000 + N.of_nat j)%N) (seq 0 lo)) (seq 0 hi).
 (* every n below 20000, cardinal and ordinal: the loop writes the defined text exactly when english_ok holds *)
-Lemma english_sweep_20000 : sweep false 20 1000 = true /\ sweep true 20 1000 = true.
+Example english_sweep_20000 : sweep false 20 1000 = true /\ sweep true 20 1000 = true.
 Proof. split; vm_compute; reflexivity. Qed.
 (* and on a few hundred numbers spread over all magnitudes, negative ones included *)
 Definition spread : list Z :=
@@ -411,5 +400,25 @@ Definition spread : list Z :=
            (seq 0 66).
 Definition english_agrees_z (ordinal : bool) (z : Z) : bool :=
   Bool.eqb (opt_text_eqb (go_english src_tables ordinal (dec_text z)) (std_english ordinal z)) (english_ok ordinal (Z.abs_N z)).
-Lemma english_spread : forallb (english_agrees_z false) spread = true /\ forallb (english_agrees_z true) spread = true.
+Example english_spread : forallb (english_agrees_z false) spread = true /\ forallb (english_agrees_z true) spread = true.
 Proof. split; vm_compute; reflexivity. Qed.
+
+(* ---- the two sites of ~R without parameters, for all integers: the readings coincide (no taint is added) on every
+   integer but 0 for the Roman forms and on english_ok for the English forms --------------------------------------- *)
+From C15 Require Import RomanProofs.
+Theorem roman_site_coincides_all : forall colon c z, z <> 0%Z -> arg_at c = Some (VInt z) ->
+  dir_radix true src_tables colon true [] c = dir_radix false src_tables colon true [] c.
+Proof.
+  intros colon c z Hz Ha. unfold dir_radix. rewrite Ha.
+  destruct (nargs c <=? c_apos c)%Z; [reflexivity|].
+  rewrite (go_roman_all_integers colon z Hz).
+  destruct (std_roman colon z) as [t|]; unfold pick; cbn [opt_text_eqb]; rewrite ?text_eqb_refl; reflexivity.
+Qed.
+Theorem english_site_coincides : forall colon c z, english_ok colon (Z.abs_N z) = true -> arg_at c = Some (VInt z) ->
+  dir_radix true src_tables colon false [] c = dir_radix false src_tables colon false [] c.
+Proof.
+  intros colon c z Hz Ha. unfold dir_radix. rewrite Ha.
+  destruct (nargs c <=? c_apos c)%Z; [reflexivity|].
+  rewrite (english_loop colon z Hz).
+  destruct (std_english colon z) as [t|]; unfold pick; cbn [opt_text_eqb]; rewrite ?text_eqb_refl; reflexivity.
+Qed.
